@@ -229,7 +229,26 @@ def F17():
     return ok, f"A.add(x); B.add(x): x in A={x in a}, x in B={x in b}, x.parent is B={x.parent is b} (two parents list x, only one is its parent)"
 
 
-ALL = dict(F10=F10, F12=F12, F17=F17, F1=F1, F2=F2, F3=F3, F4=F4, F5=F5, F6=F6, F7=F7, F8=F8, F9=F9, F14=F14)
+def F18():
+    import copy
+    from armi.reactor.tests.test_reactors import loadTestReactor
+
+    o, r = loadTestReactor(inputFileName="smallestTestReactor/armiRunSmallest.yaml")
+    core = r.core
+    a = core.getAssemblies()[0]
+    new = copy.deepcopy(a)
+    new.makeUnique()
+    n0 = len(core)
+    try:
+        core.add(new, a.spatialLocator)
+        return None, "adding to an occupied location was not refused"
+    except (ValueError, KeyError) as e:
+        err = type(e).__name__
+    listed = new in core.childrenByLocator.values() or new.getName() in core.assembliesByName
+    return len(core) == n0, f"refused add ({err}) left the core with {len(core)} children (was {n0}); new assembly is a child={new in core}, in a lookup table={listed}"
+
+
+ALL = dict(F10=F10, F12=F12, F17=F17, F18=F18, F1=F1, F2=F2, F3=F3, F4=F4, F5=F5, F6=F6, F7=F7, F8=F8, F9=F9, F14=F14)
 
 if __name__ == "__main__":
     sys.path.insert(0, os.getcwd())
